@@ -8,7 +8,7 @@
 From Coq Require Import List Arith Bool ZArith Ring_theory.
 Import ListNotations.
 Require Import Base.C01_Sums Model.C01_Assembly Proofs.C01_AssemblyProofs Gen.C01Gen Dyn.C01Tie.
-Require Import Model.C01_Trilinear Proofs.C01_TrilinearProofs Dyn.C01TriTie.
+Require Import Model.C01_Trilinear Proofs.C01_TrilinearProofs Model.C01_Params Dyn.C01TriTie.
 
 Section C01.
   Variable R : Type.
@@ -173,6 +173,34 @@ Section C01.
         = integrate R rO radd rmul (bnelems ub) (bnq ub)
             (fun e q => form (interp ub u e q) (interp vb v e q) (interp wb w e q) (p e q)) (bdx ub).
   Proof. exact (gen_trilinear_weak_form R rO rI radd rmul rsub ropp Rth V W vadd vscale). Qed.
+
+  (* ---------- extra parameters enter the three form types identically: the regenerated BilinearForm / LinearForm /
+     Functional build w = {**defaults(basis), **_normalize_asm_kwargs(kwargs, basis)} with the same (trial) basis ---------- *)
+  Theorem C01_params_enter_identically : forall dflt kw (ub vb : basis),
+    gen_params_bilinear R rO V vadd vscale dflt kw ub vb = gen_params_functional R rO V vadd vscale dflt kw ub /\
+    gen_params_linear R rO V vadd vscale dflt kw ub = gen_params_functional R rO V vadd vscale dflt kw ub.
+  Proof. exact (gen_params_identical R rO V vadd vscale). Qed.
+
+  (* Form._normalize_asm_kwargs as regenerated: a coefficient vector is the field interpolated on that basis (the same as
+     passing the pre-interpolated field), an n-d array is wrapped, a number and a field pass through, a field with another
+     number of quadrature points / a vector of another length / any other type is rejected *)
+  Theorem C01_normalize_kinds : forall (b : basis),
+    (forall u, gen_normalize_one R rO V vadd vscale b (RVector u (bN b))
+               = gen_normalize_one R rO V vadd vscale b (RField (interp b u) (bnq b))) /\
+    (forall u, gen_normalize_one R rO V vadd vscale b (RVector u (bN b)) = Some (NField (interp b u))) /\
+    (forall a, gen_normalize_one R rO V vadd vscale b (RArray a) = Some (NField a)) /\
+    (forall s, gen_normalize_one R rO V vadd vscale b (RNumber s) = Some (NNumber s)) /\
+    (forall f nq, gen_normalize_one R rO V vadd vscale b (RField f nq) = if nq =? bnq b then Some (NField f) else None) /\
+    (forall u len, len <> bN b -> gen_normalize_one R rO V vadd vscale b (RVector u len) = None) /\
+    gen_normalize_one R rO V vadd vscale b ROther = None.
+  Proof. exact (gen_normalize_kinds R rO V vadd vscale). Qed.
+
+  (* a keyword of the caller overrides the default of the same name (x, h, n), other defaults stay visible *)
+  Theorem C01_params_precedence : forall dflt kw (ub : basis) env k,
+    gen_params_functional R rO V vadd vscale dflt kw ub = Some env ->
+    exists u, normalize_all R V (gen_normalize_one R rO V vadd vscale ub) kw = Some u /\
+      env k = match lookup k u with Some x => Some x | None => lookup k (dflt ub) end.
+  Proof. exact (gen_params_precedence R rO V vadd vscale). Qed.
 End C01.
 
 (* rows index test functions on the CHOSEN side: for an oriented facet set (OrientedBoundary, flag ori per facet) the cell
@@ -193,6 +221,9 @@ Print Assumptions C01_functional_value.
 Print Assumptions C01_coo_trilinear_entries.
 Print Assumptions C01_trilinear_weak_form.
 Print Assumptions C01_oriented_side.
+Print Assumptions C01_params_enter_identically.
+Print Assumptions C01_normalize_kinds.
+Print Assumptions C01_params_precedence.
 
 (* ---------- non-vacuity: 2 cells, Nu = 2 trial functions, Nv = 3 test functions, non-symmetric integrand,
    repeated DOFs, over Z; values are (value, derivative) pairs ---------- *)
